@@ -367,10 +367,10 @@ def diff_class(st1, st2):
             return "actors"
         if n[0] == "a":
             fx, fy = x.split(":"), y.split(":")
-            if fx[1][:1] != fy[1][:1] or fx[1] != fy[1]:
-                return "position"
             if fx[2] != fy[2]:
                 return "observations"
+            if fx[1] != fy[1]:
+                return "position"
             return "comm-slots"
         if n[0] in "MEVRB":
             return {"M": "mutex", "E": "semaphore", "V": "condvar", "R": "barrier", "B": "mailbox"}[n[0]]
